@@ -227,13 +227,14 @@ fn main() {
     ctx.set_rule(
         "states = datasets as vectors of tagged rows (record tag 100*(sample+1)+feature, weight 0.5+sample) with target kind, CountedTargets wrapper, names and record memory order; \
          seeds: n in {0,1,2,3,5,6} x f in {1,3} x targets {1-d labels i mod 3, 1-d labels i (thorough), 2-d one column, 2-d two columns} x weights {none, all} x names {none, all}; \
+         plus seeds (n in {1,3,5}, all target kinds, no names) whose owned record / target / weight arrays are slice_move's out of larger allocations (2 poison rows in front, 1 behind; still row-major): all three sliced, targets only, weights only (thorough: records only as well) - any poison value in any result is a violation; \
          actions (real API, on the owned value and on .view()): owned and view split_with_ratio for r in {0,.25,1/3,.5,.7,1} (both parts successors), shuffle, bootstrap_samples(m=1..3, and two consecutive items), \
          bootstrap_features(q=1..2, and two consecutive items), bootstrap((2,2)) — all under a scripted generator whose scripts are enumerated exhaustively up to the stated caps (catalogue above) —, \
          with_labels(S) for every non-empty S of {0,1,2}, one_vs_all (every view a successor), map_targets(+1), to_owned, view, into_single_target, sample_chunks(1..3), sample_iter, target_iter, feature_iter, fold(2..3); \
          breadth-first to the stated depth, states de-duplicated by their full canonical bytes; one evaluation = one transition (one call of the real operation with all its results checked); \
          the explorer counts every transition as non-trivial, the stricter count (result non-empty and different from the source) is coverage.transitions_with_effect.",
     );
-    ctx.assume("the real dataset of a state is rebuilt from the tagged rows with DatasetBase::new / with_weights / with_feature_names / with_target_names / CountedTargets::new (trusted base); DatasetBase has no other state than the five containers, the CountedTargets cache (checked against a recount in every produced value) and the memory order of the arrays (record order is part of the state)");
+    ctx.assume("the real dataset of a state is rebuilt from the tagged rows with DatasetBase::new / with_weights / with_feature_names / with_target_names / CountedTargets::new (trusted base); DatasetBase has no other state than the five containers, the CountedTargets cache (checked against a recount in every produced value) and the memory of the arrays: record memory order and whether an owned array is a slice of a larger allocation are part of the state (which results stay inside the source allocation is taken from the operation: into_single_target, view and owned map_targets keep it, everything else allocates)");
     ctx.assume("one_vs_all results (CountedTargets<bool,..>) continue as states with labels 0/1 of type usize (same generic code)");
     ctx.assume("split size = ceil of the single-precision product, computed as ((n as f64 * r as f64) as f32).ceil() (exact double product, one rounding); discrete outputs are compared exactly, no tolerance anywhere");
     ctx.assume("weights / names are only checked when the result carries them (statement: 'whenever the result carries weights or names'); dropping them is accepted except for with_labels, whose rustdoc promises that weights and feature names are preserved");
@@ -261,7 +262,34 @@ fn main() {
             }
         }
     }
+    // seeds whose owned arrays are `slice_move`s out of larger allocations (poison rows around them):
+    // all three containers sliced, only the targets, only the weights
+    let tight = seeds.len();
+    for &n in &[1usize, 3, 5] {
+        for &f in &[1usize, 3] {
+            for t in ["ix1", "ix2x1", "ix2x2"] {
+                for w in [false, true] {
+                    for (pr, pt, pw) in [(true, true, true), (false, true, false), (false, false, true), (true, false, false)] {
+                        if (pw && !w) && !(pr || pt) {
+                            continue;
+                        }
+                        if (pr, pt, pw) == (true, false, false) && ctx.quick() {
+                            continue;
+                        }
+                        let mut s = seed(n, f, t, "cyc", w, false);
+                        s.pad_rec = pr;
+                        s.pad_tgt = pt;
+                        s.pad_w = pw && w;
+                        if !seeds.contains(&s) {
+                            seeds.push(s);
+                        }
+                    }
+                }
+            }
+        }
+    }
     ctx.extra("seeds", json!(seeds.len()));
+    ctx.extra("seeds_with_arrays_sliced_from_larger_allocations", json!(seeds.len() - tight));
 
     let stats = Stats::default();
     let done = AtomicU64::new(0);
